@@ -220,6 +220,18 @@ def evaluate_faulty(ctx, fplan, twin_res, twin_data, want_events=False):
     return rec
 
 
+_DEFAULT_PLAN = {"seed": 0, "run": "default-header", "hashseed": 0, "selection": {"units": [], "constants": [], "io": True, "main_files": [], "version_id": "edge", "opt_order": ["units", "constants", "noio", "version"]},
+                 "env": {"listdir": {}, "extra_entries": {}, "clock": ["2026-01-01T00:00:00"], "git": "ok:edge", "stdout_mode": "block", "stdout_bufsize": 4096}, "faults": [], "toolchain": {"a": ["g++", "c++14"]}, "probe": {}}
+
+
+def default_header(ctx):
+    """The single-file package for the default selection (generated once per context)."""
+    if not hasattr(ctx, "_default_header"):
+        res, data = ctx.pool.run(dict(_DEFAULT_PLAN))
+        ctx._default_header = data if res["status"] == 0 and not res["hang"] else None
+    return ctx._default_header
+
+
 def evaluate_session(ctx, splan, want_events=False):
     """A session: the invocations run back to back on one simulated machine (shared overlay of
     whatever the tool wrote).  Each invocation is compared with a *fresh* run of the same
@@ -313,6 +325,17 @@ def evaluate_concurrent(ctx, cplan, want_events=False):
 def evaluate_case(ctx, case, want_events=False):
     """Evaluate an arbitrary case (used by replay and by the minimiser).  Returns a dict with
     `violations` (list of {class, sig, detail}) and the trace hashes of the executions involved."""
+    if "edge_program" in case:
+        from . import edge as _edge
+
+        hdr = default_header(ctx)
+        viol = []
+        if hdr is None:
+            return {"twin": {"events": None}, "faulty": None, "violations": [], "trace_hashes": [], "harness_error": None, "inconclusive": True}
+        v, detail = _edge.judge(ctx.builder, case["edge_program"], hdr, _plan.all_toolchains())
+        if v and v != "HARNESS":
+            viol.append({"class": v, "sig": "%s|edge program %s|%s" % (v, case["edge_program"], detail.get("what")), "detail": detail})
+        return {"twin": {"events": None}, "faulty": None, "violations": viol, "trace_hashes": [], "harness_error": detail if v == "HARNESS" else None, "edge_table": detail.get("table")}
     if "header_alone" in case:
         v, detail = _oracle.judge_header_alone(ctx.builder, case["header_alone"], tuple(case["toolchain"]["a"]))
         viol = []
